@@ -7,9 +7,11 @@ Driver for C11.  Requests (all numbers are naturals, internal orientation of the
       structure (entries in `a.iter()` order, weight, candidate flag), the pivots reported by `SeqDone`,
       the recorded events  0=TaskStart(row,k)  1=Candidate(row,col+1|0,k)  2=Retry(row,k,cur)
       3=Commit(row,col,k,idx), and the list returned by `find_pivots`.
-      The model runs the two sequential phases itself, replays every event through `step` (which must be
-      enabled and produce the same outcome), and checks the returned order with `checkPivots`.
-      reply:  seq:<i,j;..> piv:<i,j;.. sorted by column> chk:ok      or     reject ev=<t> <why>
+      The table reported by `SeqDone` must pass the verified checker `checkInit`; every event is replayed
+      through `step` (which must be enabled — in particular the real code's candidate must still be marked
+      `Candidate` in the model — and produce the same snapshot/retry/commit outcome); the returned order
+      is checked with `checkPivots`.  Pivot *choices* (heuristics `cmp_rows`/`cmp_cols`) are not compared.
+      reply:  piv:<i,j;.. sorted by column> chk:ok      or     reject ev=<t> <why>
 
   enum m n ne (i j w c)*ne budget
       explores ALL interleavings of the model (including stale task starts) up to `budget` steps in total and
@@ -53,7 +55,9 @@ def parseStr (c : Cur) : Option (Str × Cur) := do
 
 def decodeEvent : List Nat → Option (Act × Outcome)
   | [0, row, k, _, _] => some (.start row k, .started k)
-  | [1, row, col1, k, _] => some (.search row, .candidate (if col1 = 0 then none else some (col1 - 1)) k)
+  | [1, row, col1, k, _] =>
+    let ch := if col1 = 0 then none else some (col1 - 1)
+    some (.search row ch, .candidate ch k)
   | [2, row, k, cur, _] => some (.validate row, .retry k cur)
   | [3, row, col, k, idx] => some (.validate row, .commit col k idx)
   | _ => none
@@ -81,29 +85,40 @@ def handleTrace (c : Cur) : Option String := do
   let (res, c) ← c.tuples 2
   if c.p ≠ c.a.size then none else
   let res := toPairs res
-  let _ := seqI
-  match initState s with
-  | .ok st0 =>
-    match replay s st0 evs 0 with
-    | .error e => some e
-    | .ok st =>
-      if !st.ws.isEmpty then some "reject end tasks-in-flight" else
-      if !st.todo.isEmpty then some "reject end rows-not-started" else
-      -- the model's own `result()` (keys in insertion order) must succeed and be triangular
-      let own := match result s st.S (st.S.map (·.2)) with
-        | .ok L => checkPivots s L
-        | _ => false
-      -- the real code's returned order: same pivot set, verified checker
-      let same := sortByCol res == sortByCol st.S
-      let chk := own && same && checkPivots s res
-      some s!"seq:{pairsStr st0.S} piv:{pairsStr (sortByCol st.S)} chk:{if chk then "ok" else "bad"}"
-  | _ => some "reject seq model-panic"
+  let S0 := toPairs seqI
+  -- the table after the real code's sequential phases must pass the verified checker
+  -- (`checkInit_ginv`: it then satisfies the global invariant, and every state reached by the replay does)
+  if !checkInit s S0 then some "reject seq invariant-violated" else
+  let st0 : State := ⟨S0, remainRows s S0, []⟩
+  match replay s st0 evs 0 with
+  | .error e => some e
+  | .ok st =>
+    if !st.ws.isEmpty then some "reject end tasks-in-flight" else
+    -- the model's own `result()` (keys in insertion order) must succeed and be triangular
+    let own := match result s st.S (st.S.map (·.2)) with
+      | .ok L => checkPivots s L
+      | _ => false
+    -- the real code's returned order: same pivot set, verified checker
+    let same := sortByCol res == sortByCol st.S
+    let chk := own && same && checkPivots s res
+    some s!"piv:{pairsStr (sortByCol st.S)} chk:{if chk then "ok" else "bad"}"
 
 /-! exhaustive exploration of the model's interleavings (sanity test of the theorem statement) -/
 
-def enabledActs (st : State) : List Act :=
+def enabledActs (s : Str) (st : State) : List Act :=
   (st.todo.flatMap (fun i => (List.range (st.S.length + 1)).map (fun k => Act.start i k)))
-  ++ st.ws.map (fun w => if w.chosen.isSome then Act.validate w.row else Act.search w.row)
+  ++ st.ws.flatMap (fun w =>
+      if w.chosen.isSome then [Act.validate w.row]
+      else
+        -- every admissible choice: each column still marked Candidate after the traversal, or giving up;
+        -- the code's policy first
+        match traverse s (st.S.take w.k) w with
+        | .ok w' =>
+          let cs := (List.range s.ncols).filter (fun j => w'.isCandidate j)
+          match chooseCandidate s w' with
+          | some j => Act.search w.row (some j) :: (cs.filter (· != j)).map (fun j' => Act.search w.row (some j'))
+          | none => [Act.search w.row none]
+        | _ => [Act.search w.row none])
 
 def stateOk (s : Str) (st : State) : Bool :=
   match result s st.S (st.S.map (·.2)) with
@@ -113,7 +128,7 @@ def stateOk (s : Str) (st : State) : Bool :=
 /-- depth-first over all schedules; returns remaining budget, or the bad state -/
 partial def explore (s : Str) (st : State) (budget : Nat) : Except String Nat :=
   if !stateOk s st then .error s!"bad S={pairsStr st.S}" else
-  (enabledActs st).foldlM (init := budget) (fun b a =>
+  (enabledActs s st).foldlM (init := budget) (fun b a =>
     if b = 0 then .ok 0 else
     match step s st a with
     | .ok (st', _) => explore s st' (b - 1)
